@@ -23,7 +23,7 @@ RULE = (
     "metric, convention, solver, knobs, inner steps, step sizes, fault region) with >=1 successful monitored step and >=1 solve."
 )
 ASSUMPTIONS = [
-    "limits: |c(q)| < 10*constraint_tol, |J M^-1 p| < 1e-8*(1+|p|)*max(1,|J|) (calibrated: worst 1.0e-9 / 2.4e-15 on the pinned tree)",
+    "limits: |c(q)| < 10*constraint_tol, |J M^-1 p| < 1e-8*(1+max(|p|,|M^-1 p|))*max(1,|J|), and scale-free: the cosine between the velocity and every constraint normal in the metric inner product < 1e-10*max(10, cond(normalised Gram matrix)) (worst seen on the repaired tree: 1.4% of that limit); metric scales 1e-6..1e6 and a pair of planes 1e-2 rad apart are part of the swarm",
     "the input space is sampled along chains; the fault clause (returns only when converged, otherwise ConvergenceError) is what injection decides",
     "oracle evaluations use fresh states with the injector paused",
 ]
@@ -31,6 +31,26 @@ REAL_VS_STUB = "real: mici constrained integrator, projection solvers, constrain
 WALL_CAP_S = {"quick": 300, "thorough": 3000}
 MIN_EVALUATIONS = {"quick": 100, "thorough": 1000}
 N = {"quick": 5000, "thorough": 150000}
+
+
+def _vary_conditioning(spec, rng):
+    """Swarm knob: the Gram matrix J M^-1 J^T is only ever O(1) and well conditioned with the stock zoo;
+    metric scales from 1e-6 to 1e6 and a nearly parallel pair of constraints move it to both ends."""
+    if rng.random() < 0.15:
+        spec["constraint"] = "planes"
+        spec["dim"] = max(spec["dim"], 3)
+        if len(spec["target"]["c"]) != spec["dim"]:
+            t = spec["target"]
+            spec["target"] = zoo.quartic_from_seed(rng, spec["dim"], offset=t.get("offset", 0.0), scale=t.get("scale", 1.0))
+            spec["metric"] = zoo.random_metric_spec(rng, spec["dim"], (spec["metric"]["type"],))
+    if rng.random() < 0.35:
+        k = rng.choice([1e-6, 1e-3, 1e3, 1e6])
+        m = spec["metric"]
+        if m["type"] == "diag":
+            m["diag"] = [k * x for x in m["diag"]]
+        elif m["type"] == "dense":
+            m["array"] = (k * np.array(m["array"])).tolist()
+        spec["metric_scale"] = k if m["type"] in ("diag", "dense") else 1.0
 
 
 def scenarios(tier, seed):
@@ -60,6 +80,7 @@ def scenarios(tier, seed):
             out.append({"family": "adaptive", "chain": ch})
             continue
         spec = zoo.random_system_spec(rng, kinds=("con", "con", "gcon"), dims=(2, 3, 4))
+        _vary_conditioning(spec, rng)
         ispec = zoo.random_integrator_spec(rng, spec["kind"], step_size=rng.choice([0.05, 0.2, 0.5, 1.0]))
         ispec["n_inner_step"] = rng.choice([1, 1, 2, 3, 4])
         if rng.random() < 0.6:
@@ -165,6 +186,10 @@ def run_scenario(scn):
     stats = {"chains": 1, "steps": c.get("steps", 0), "steps_ok": c.get("steps_ok", 0), "manifold_checks": c.get("manifold_checks", 0),
              "lagrange_checks": c.get("lagrange_checks", 0), "proj_solves": c.get("proj_solves", 0), "proj_returns": c.get("proj_returns", 0),
              "proj_convergence_errors": c.get("proj_convergence_errors", 0),
+             "cotangent_relative_checks": c.get("cotangent_relative_checks", 0),
+             "cotangent_relative_skipped_illconditioned": c.get("cotangent_relative_skipped_illconditioned", 0),
+             "max_cotangent_cosine_over_limit": c.get("cotangent_relative_worst_e18", 0) / 1e18,
+             "scaled_metric_chains": int(scn["system"].get("metric_scale", 1.0) != 1.0), "nearly_parallel_chains": int(scn["system"].get("constraint") == "planes"),
              "step_errors": {k.split(":", 1)[1]: v for k, v in c.items() if k.startswith("step_errors:")},
              "fired": {k.split(":", 1)[1]: v for k, v in c.items() if k.startswith("fired:")},
              "escaped": {}}
